@@ -4,6 +4,7 @@ import (
 	"encoding/hex"
 	"math"
 	"sort"
+	"strconv"
 
 	"pgregory.net/rapid"
 
@@ -31,7 +32,8 @@ var strPool = []string{"x", "alpha", "x y", "", "Alpha BETA", "007", "1e3", "tru
 var intPool = []int64{0, 1, -1, 2, 7, 42, 100, 255, 256, 65535, 65536, -128, 1 << 31, -(1 << 31) - 1, 1 << 53, (1 << 53) + 1, -(1 << 53) - 1,
 	math.MaxInt64, math.MinInt64, math.MaxInt64 - 1, 1 << 62, 9007199254740993}
 var floatPool = []float64{0.5, -0.5, 1.5, 2.5, 3.25, 1e-3, 0.1, 0.2, 0.30000000000000004, 1e10, -1e10, 1e300, 1e-300, 5e-324, math.MaxFloat64,
-	-math.MaxFloat64, 2.0, 100.0, 1.0000000000000002, 123456789.125, 0.0, 1e21, 1e22, 123456789012345680000.0}
+	-math.MaxFloat64, 2.0, 100.0, 1.0000000000000002, 123456789.125, 0.0, 1e21, 1e22, 123456789012345680000.0,
+	-2.2212344287336554e+19, 2.5051154033765392e+19, 9.223372036854775808e18, 1.8446744073709552e19}
 
 func genStr(t *rapid.T) model.Val {
 	switch rapid.IntRange(0, 9).Draw(t, "strKind") {
@@ -55,8 +57,17 @@ func genInt(t *rapid.T) model.Val {
 	}
 }
 
+// integer spellings beyond int64 (a JSON number; the documented storage is float64). Handlers that
+// re-marshal a float64 in [2^63, 1e21) produce such spellings themselves.
+var beyondInt64 = []string{"22212344287336554000", "-25051154033765392000", "123456789012345678901", "18446744073709551617",
+	"9223372036854775808", "-9223372036854775809", "100000000000000000000", "36893488147419103232"}
+
 func genFloat(t *rapid.T) model.Val {
-	switch rapid.IntRange(0, 9).Draw(t, "floatKind") {
+	switch rapid.IntRange(0, 10).Draw(t, "floatKind") {
+	case 10:
+		s := rapid.SampledFrom(beyondInt64).Draw(t, "beyondInt64")
+		f, _ := strconv.ParseFloat(s, 64)
+		return model.Val{K: model.KFloat, F: f, Spell: s}
 	case 0, 1, 2, 3:
 		return model.Float(rapid.SampledFrom(floatPool).Draw(t, "poolFloat"))
 	case 4, 5:
